@@ -21,7 +21,7 @@ HERE = os.path.dirname(os.path.abspath(__file__))
 
 
 def overlay(tier, seed=0):
-    return [{"src": "n3_expr_ops.rs", "dest": "src/verif_n3_expr_ops.rs", "mod_in": "src/ir.rs", "mod_name": "verif_n3", "params": {}}]
+    return [{"src": "n3_expr_ops.rs", "dest": "src/verif_n3_expr_ops.rs", "mod_in": "src/ir.rs", "mod_name": "verif_n3", "params": {"PAIRMOD": 4 if tier == "quick" else 1}}]
 
 
 def obligations(tier, seed):
